@@ -19,7 +19,7 @@ def check(tier, seed):
                    evaluations=res["ops"], distinct_nontrivial=res["ops"], exhaustive=True,
                    rule="exhaustive small scope (dims<=2/3, extents<=3/4, indices -2..ext+1; all range compositions over a window; strings<=6) + seeded large shapes; each op distinct by construction",
                    samples=res["samples"], source_level_programs=src_level, index=dict((k, v) for k, v in res.items() if k != "samples"))
-    rep.assumptions = ["int overflow in a+c of vm_get_slice_range not modelled (mathematical integers)", "element-wise/matrix arithmetic bodies are not modelled here, only their shape guards"]
+    rep.assumptions = ["composed range bounds are computed over the integers in the model and in 64 bits in vm_get_slice_range (repo fix b3c4919): exact for every int input", "element-wise/matrix arithmetic bodies are not modelled here, only their shape guards"]
     return rep.finish()
 
 def replay(path):
